@@ -168,16 +168,24 @@ LOOP_FNS = ['bbsplus::signature::core_sign', 'bbsplus::signature::core_verify', 
             'bbsplus::proof::proof_finalize', 'bbsplus::blind::calculate_b', 'bbsplus::commitment::core_commit', 'bbsplus::commitment::core_commit_verify']
 
 
+PARTIAL_ADAPTORS = ('Iterator::take', 'Iterator::skip', 'Iterator::step_by', 'Iterator::take_while', 'Iterator::skip_while', 'Iterator::filter',
+                    'Iterator::nth', 'Iterator::last', 'Iterator::find', 'Iterator::position')
+ITER_SOURCES = ('core::slice::<impl [T]>::iter', 'std::iter::IntoIterator::into_iter', 'core::slice::<impl [T]>::iter_mut')
+
+
 def rule_loop_coverage(ctx, cfg='prod-all', fns=LOOP_FNS):
-    """every parameter-rooted vector that a counting loop indexes with its induction variable is visited completely:
-    the loop starts at 0 and its end bound is at least the length of the vector (the bounds check gives the other direction)."""
-    prog, za = ctx.prog(cfg), ctx.zone(cfg)
+    """every parameter-rooted vector that is folded is visited completely.  Index loops: the loop starts at 0 and its end bound is at
+    least the length of the vector (the bounds check gives the other direction).  Iterator forms: the vector is the source of an iterator
+    chain without a truncating adaptor; when zipped, the partner is provably at least as long.  Forms the analysis cannot judge (the whole
+    vector handed to another function) are reported as undecided, never as a violation."""
+    prog, za, eng = ctx.prog(cfg), ctx.zone(cfg), ctx.eng(cfg)
     for fn in fns:
         b = prog.bodies.get(fn)
         if b is None:
             raise AnchorMissing(fn)
         za.summary(fn)
         zf = za.zf(fn)
+        fd = zf.fd
         seen = 0
         for h, blocks in zf.loops:
             rng = None
@@ -209,8 +217,64 @@ def rule_loop_coverage(ctx, cfg='prod-all', fns=LOOP_FNS):
                     cover = None      # a local helper vector (not a message vector of the interface): reported, not armed
                 yield Ob('RF-P', '%s#covers:%s' % (fn, s.desc), cover, 'the loop visits every element of the vector it folds (no message skipped)', b.span,
                          fact={'range': (tfmt(start), tfmt(end)), 'vector_len': tfmt(ln)}, expected='0 .. len')
+        # iterator forms over slice / Vec parameters
+        for bi, t in b.calls():
+            cal = t.get('callee') or ''
+            if cal not in ITER_SOURCES or not t['args'] or t['args'][0]['k'] not in ('copy', 'move'):
+                continue
+            root, path = fd.resolve_place(t['args'][0]['pl'])
+            if not fd.is_param(root):
+                continue
+            ty = b.local_ty(root)
+            if 'Range<' in b.local_ty(t['args'][0]['pl']['l']):
+                continue
+            d = zf.desc_place(t['args'][0]['pl'])
+            if d[0] != 'cont':
+                continue          # a sub-slice: judged by the index rules
+            name = b.local_name(root) + ''.join('.' + x for x in path)
+            ln = zf.len_of_desc(d)
+            # follow the chain: who consumes this iterator?
+            verdict = True
+            why = 'iterated directly'
+            cur = t['dst']['l']
+            for _ in range(8):
+                users = [(bj, u) for bj, u in b.calls() if any(a['k'] in ('copy', 'move') and fd.base(a['pl']['l'])[0] == fd.base(cur)[0] and not a['pl'].get('p') for a in u['args'])]
+                users = [(bj, u) for bj, u in users if u is not t]
+                nxt = None
+                for bj, u in users:
+                    ucal = u.get('callee') or ''
+                    if ucal.endswith(PARTIAL_ADAPTORS):
+                        verdict = False
+                        why = 'truncating adaptor %s' % ucal.split('::')[-1]
+                    elif ucal in ('std::iter::Iterator::zip', 'std::iter::zip'):
+                        # the partner must be at least as long
+                        other = [a for a in u['args'] if a['k'] in ('copy', 'move') and fd.base(a['pl']['l'])[0] != fd.base(cur)[0]]
+                        oln = None
+                        for o in other:
+                            od = zf._origin_call(o['pl']['l']) if not o['pl'].get('p') else None
+                            if od and (od[1].get('callee') or '') in ITER_SOURCES and od[1]['args'][0]['k'] in ('copy', 'move'):
+                                oln = zf.len_of_place(od[1]['args'][0]['pl'])
+                            elif not o['pl'].get('p'):
+                                oln = zf.len_of_place(o['pl'])
+                        if ln is not None and oln is not None and zf.prove_le(ln, oln, bj):
+                            why = 'zipped with a partner of length >= len'
+                        else:
+                            verdict = None if verdict else verdict
+                            why = 'zipped with a partner whose length is not provably >= len'
+                        nxt = u['dst']['l']
+                    elif ucal.startswith('std::iter::Iterator::') or ucal in ITER_SOURCES or ucal == 'std::iter::IntoIterator::into_iter':
+                        if ucal.endswith(('::next', '::for_each', '::fold', '::collect', '::sum', '::product', '::count', '::all', '::any')):
+                            continue
+                        nxt = u['dst']['l']
+                if nxt is None:
+                    break
+                cur = nxt
+            seen += 1
+            yield Ob('RF-P', '%s#iterates:%s' % (fn, name), verdict, 'the vector is consumed completely by the iterator chain that folds it', b.span,
+                     fact={'how': why, 'vector_len': tfmt(ln)}, expected='no truncating adaptor; zip partner at least as long')
         if seen == 0:
-            yield Ob('RF-P', '%s#no-loop' % fn, False, 'expected at least one accumulation loop over a message vector', b.span, fact=0, expected='>=1')
+            yield Ob('RF-P', '%s#no-loop' % fn, None, 'no index loop or iterator over a parameter vector was recognised in this function (coverage not judged)', b.span,
+                     fact=0, expected='>=1', nontrivial=False)
 
 
 # -------------------------------------------------------------------------------- RF-M generator offsets
